@@ -22,7 +22,7 @@ from checks.c13 import essence, _diff, _j
 from simftp import corpus, scenario
 
 PROP = "C17"
-NAMES = sorted(n for n in corpus.scripts() if n not in ("no_dconn", "idle", "relogin"))
+NAMES = sorted(n for n in corpus.scripts() if n not in ("no_dconn", "idle", "relogin", "pipelined"))
 USERS_PREFIX = [{"login": None}, {"login": "u1", "password": "pw1"}, {"login": "u2"}]
 
 
